@@ -46,6 +46,34 @@ add("C18", "generated programs: batches of grammar-generated literals compiled t
     "Exploration over generated programs: P_ok must compile and print from_str's (coefficient, scale) for every accepted literal; P_all must fail exactly on the lines of rejected literals (one proc-macro panic per error line).",
     "Trusts rustc's per-invocation proc-macro error reporting and cargo; one compiler version; a blank after the sign is not part of the token text.", "5/C18")
 
+add("C08", EXACT + "; laws (reflexive, antisymmetric, transitive) checked on generated triples; rkyv round trip and archived comparisons",
+    "Exploration: all comparison operators on generated pairs/triples (same value at different scales, adjacent values, alignment overflow, all 9 integer types in both orders) against the sign of the exact difference; rkyv archive/deserialize identity and archived comparisons.",
+    "Trusts the oracle crate, rkyv's validation, rustc; packed ArchivedDecimal impl is exercised by C20's packed builds.", "5/C08")
+add("C09", "property-based testing (proptest): all equal-valued representations of each generated value must hash identically (std DefaultHasher) and to the hash of the reduced ratio computed by Euclid on big integers",
+    "Exploration: Hash/Eq consistency across 1..19 representations per value, HashSet membership, as_integer_ratio/numerator/denominator against an independent gcd.",
+    "Trusts std's DefaultHasher as a representative Hasher, the oracle crate, rustc.", "5/C09")
+add("C12", "property-based testing (proptest) with constructed mid-points between adjacent floats; two independent oracles (std's correctly rounded parser and exact big-integer round-half-even) must both accept",
+    "Exploration: f64::from / f32::from compared bit-for-bit with the correctly rounded result on generated decimals incl. exact ties and +-1 decimal ulp around mid-points.",
+    "Trusts std's dec2flt (cross-checked per case against the exact oracle), the oracle crate, rustc.", "5/C12")
+add("C13", "property-based testing (proptest) over raw float bit patterns with an exact big-integer oracle; all 2^32 f32 patterns enumerated in the thorough tier (stride sample in quick)",
+    "Exploration (f32: exhaustive in the thorough tier): Decimal::try_from(f64|f32) against exact sig*2^e*10^18 rounded half-even, normalised, with precise error kinds.",
+    "Trusts the oracle crate and rustc.", "5/C13")
+add("C14", "property-based testing (proptest) plus exhaustive enumeration of the 8/16-bit From conversions and of try_from over small values x 19 scales",
+    "Exploration with exhaustively enumerated sub-spaces: From<int>/TryFrom<u128> and T::try_from(Decimal) for 10 target types against big-integer range/integrality tests, error kinds compared exactly.",
+    "Trusts the oracle crate and rustc.", "5/C14")
+add("C15", EXACT + "; enumerated power-of-ten boundaries and exhaustive 8/16-bit log10 helpers",
+    "Exploration with enumerated sub-spaces: floor/ceil/trunc/fract/abs/neg/magnitude/predicates and the num-traits impls against big-integer definitions; log10 helpers exhaustively for u8/u16 and on every power of ten +-1.",
+    "Trusts the oracle crate and rustc.", "5/C15")
+add("C17", "differential / metamorphic property-based testing (proptest): every macro-stamped reference and assign form against the by-value form, integer operand against Decimal::from(integer)",
+    "Exploration: ~15 operations x 9 integer types x 2 positions x 4-6 forms executed explicitly per case; a label per impl family proves all were executed; stated exception for multiplication by one honoured.",
+    "No reference oracle here (C01-C04/C10 give the absolute values); one open known finding (integer/integer div_rounded with n > 18) excluded by signature.", "5/C17")
+add("C19", "model-based (stateful) property-based testing: generated lock-step schedules over real OS threads against a per-thread mode model, sequences shrink as one value",
+    "Exploration over generated schedules (up to 4 threads x 40 steps): set_default/default/rounding operations executed by real threads in a harness-owned order; every result must match the issuing thread's model mode, new threads start with HalfEven.",
+    "Sampled interleavings (deterministic lock-step), not exhaustive; timing-dependent races on weak memory are out of reach; trusts the oracle crate.", "5/C19")
+add("C20", "differential fuzzing across builds: the same generated cases are evaluated by driver processes compiled under several profiles / feature sets and compared line by line; the reference build is also compared with the exact oracle",
+    "Exploration: ~60 public operations per case over the union of the C01-C06/C10 generators; quick = dev, release, release+packed; thorough = all 8 combinations of {opt 0/3} x {checks on/off} x {packed on/off}.",
+    "One compiler and target; trusts cargo profiles to control overflow-checks/debug-assertions; trusts the oracle crate.", "5/C20")
+
 def main():
     checks = []
     na = []
@@ -68,7 +96,7 @@ def main():
             na.append({"property_id": i, "reason": "check not built yet (work in progress; design in DESIGN.md section 5)"})
     m = {
         "version": 1,
-        "setup_cmd": "cd harness && CARGO_NET_OFFLINE=true cargo build --release --offline -p vcheck",
+        "setup_cmd": "bin/setup",
         "hooks": {
             "guard": "fpdec_verif",
             "enable": "no source hooks are needed: the checks link /repo as a cargo path dependency and use only public (partly doc-hidden) API",
@@ -78,6 +106,7 @@ def main():
         },
         "engines": [
             {"name": "vcheck", "path": "harness/vcheck", "serves_properties": sorted(CHECKS), "kind_free_text": "proptest-driven property checks (one sub-command per property) on top of harness/engine and the independent reference oracle in harness/oracle"},
+            {"name": "c20drv", "path": "harness/c20drv", "serves_properties": ["C20"], "kind_free_text": "driver binary built under several cargo profiles / feature sets; evaluates every public operation for the cases vcheck generates"},
         ],
         "checks": checks,
         "not_applicable": na,
